@@ -507,7 +507,10 @@ func (a *Authenticator) ClientHandshake(ctx context.Context) (*SecurityNegotiati
 
 	if serverAddr != "" && a.config.Command >= 0 {
 		cmdStr := fmt.Sprintf("%d", a.config.Command)
-		if entry, ok := cache.LookupByCommand(a.config.SecurityTag, serverAddr, cmdStr); ok {
+		// A cached session without a key cannot be resumed (the server refuses it:
+		// nothing would prove the requester is the session's owner), so do not try --
+		// go straight to a full handshake on this connection.
+		if entry, ok := cache.LookupByCommand(a.config.SecurityTag, serverAddr, cmdStr); ok && entry.KeyInfo() != nil && len(entry.KeyInfo().Data) > 0 {
 			slog.Info(fmt.Sprintf("🔐 CLIENT: Found cached session %s for %s, attempting to resume...",
 				redactSessionID(entry.ID()), serverAddr), "destination", "cedar")
 
@@ -675,6 +678,15 @@ func (a *Authenticator) handleSessionResumption(ctx context.Context, sessionID s
 				entry, ok, cache = e, true, global
 			}
 		}
+	}
+	// A resumption is authenticated solely by the requester's possession of the
+	// session key: the first protected frame proves it. A cached session that
+	// carries no key (negotiated without a cipher) offers no such proof -- anyone
+	// who learns or guesses the id could ride it, identity included -- so it is
+	// never resumed; the requester is told to start a fresh handshake.
+	if ok && (entry.KeyInfo() == nil || len(entry.KeyInfo().Data) == 0) {
+		slog.Info(fmt.Sprintf("🔐 SERVER: Session %s has no key; refusing to resume it", redactSessionID(sessionID)), "destination", "cedar")
+		ok = false
 	}
 	if !ok {
 		slog.Info(fmt.Sprintf("🔐 SERVER: Session %s not found or expired", redactSessionID(sessionID)), "destination", "cedar")
